@@ -364,6 +364,8 @@ def c06(ctx):
     recv_component(ctx, "C06")
     files = xfer_traces(ctx, ["pr", "pr", "lossy", "reorder", "il"], 160, 4000)
     files += transfer_family(ctx, design=False, pr=True)   # Transfer.tla environment schedules under partial reliability
+    # what a partially reliable stream gives up must not take reliable traffic of the same association with it
+    files += directed_traces(ctx, "prdir", 8, {"VF_FULL": "0" if ctx.quick else "1", "VF_ONLY": "relfrag"})
     ctx.validate(files)
 
 
@@ -788,6 +790,7 @@ def c03(ctx):
 
 
 EXTRA["C01"] = ["C06_Intact", "C06_Genuine", "C06_AtMostOnce", "C12_Ppi"]   # "payload bytes and payload protocol identifier ... nothing lost, duplicated, altered"
+EXTRA["C06"] = ["C01_SkippedReliable", "C02_Delivered", "C01_ReadNext"]   # fully reliable streams next to partially reliable ones
 EXTRA["C07"] = ["C01_SkippedReliable", "C02_Delivered", "C01_ReadNext", "C06_Genuine"]   # "never block or destroy anything else": the reliable traffic next to it
 EXTRA["C08"] = ["C09_NoLeak"]   # a shutdown that leaves goroutines blocked for good
 EXTRA["C14"] = ["C02_Delivered", "C01_ReadNext", "C06_Genuine", "C06_AtMostOnce", "C06_OrderedSubseq"]   # "normal delivery" of a re-opened identifier
